@@ -52,6 +52,22 @@ ADAPTORS = ("std::iter::Enumerate", "std::iter::Rev", "std::iter::Peekable", "st
 FINITE_BASES = ("std::str::Split<", "std::str::RSplit<", "std::str::Chars<", "std::str::CharIndices<", "std::str::Bytes<", "std::slice::Iter<", "std::slice::IterMut<", "std::vec::IntoIter<", "std::collections::hash_map::Iter<", "std::collections::hash_map::IntoIter<", "std::collections::hash_map::Keys<", "std::collections::hash_map::Values<", "std::str::SplitN<", "std::str::RSplitN<", "std::str::Lines<", "std::option::IntoIter<", "std::ops::Range<")
 
 
+def _finite_by_type(npath):
+    """`<X as Iterator>::next` for X an iterator over an in-memory std collection or a str/slice view: it yields each stored
+    element once, so a loop over it terminates (the element count is bounded by memory).  Matched on the type name, so that
+    every generic spelling the compiler prints (BTreeMap, VecDeque, BinaryHeap, sets, char/byte views ...) is covered."""
+    if not (npath.startswith("<") and npath.endswith(" as std::iter::Iterator>::next")):
+        return False
+    ty = npath[1:].split(" as ")[0]
+    bases = ("std::collections::btree_map::", "std::collections::btree_set::", "std::collections::hash_map::", "std::collections::hash_set::",
+             "std::collections::vec_deque::", "std::collections::binary_heap::", "std::collections::linked_list::", "std::slice::", "std::vec::IntoIter<", "std::vec::Drain<",
+             "std::str::", "std::option::", "std::result::", "std::array::IntoIter<", "std::char::ToLowercase", "std::char::ToUppercase", "std::char::EscapeDefault", "std::string::Drain<")
+    finite_names = ("Iter<", "IterMut<", "IntoIter<", "Keys<", "Values<", "ValuesMut<", "IntoKeys<", "IntoValues<", "Drain<", "Range<", "Chars<", "CharIndices<", "Bytes<", "Split<", "RSplit<", "SplitN<", "RSplitN<",
+                    "SplitTerminator<", "RSplitTerminator<", "SplitInclusive<", "Lines<", "SplitWhitespace<", "SplitAsciiWhitespace<", "Matches<", "RMatches<", "MatchIndices<", "RMatchIndices<", "EncodeUtf16<", "Chunks<", "ChunksExact<", "Windows<",
+                    "ToLowercase", "ToUppercase", "EscapeDefault", "Difference<", "Intersection<", "Union<", "SymmetricDifference<")
+    return ty.startswith(bases) and any(("::" + n) in ty or ty.endswith(n.rstrip("<")) for n in finite_names)
+
+
 def local_finite_types(facts):
     """local iterator types whose `next` forwards to a finite std iterator (e.g. qualifiers::Iter -> slice::Iter)"""
     out = []
@@ -66,7 +82,7 @@ def local_finite_types(facts):
 
 def finite_iterator(npath, term, extra_bases=()):
     """Is `<X as Iterator>::next` the next of a finite std iterator, possibly wrapped in length-preserving/shrinking adaptors?"""
-    if npath in FINITE_ITERATORS:
+    if npath in FINITE_ITERATORS or _finite_by_type(npath):
         return True
     m = npath
     if m.startswith("<") and " as std::iter::Iterator>::next" in m and any(m[1:].startswith(a) for a in ADAPTORS):
